@@ -95,5 +95,7 @@ def check(ctx, rep):
     _idx1.idx_1(ctx, rep, ['parso/python/pep8.py', 'parso/normalizer.py', 'parso/python/errors.py'])     # no constant index into a freshly filtered list
     from ..rules import dar as _loop1
     _loop1.loop_1(ctx, rep, ['parso/python/pep8.py', 'parso/normalizer.py', 'parso/python/prefix.py'])      # a value computed for one element of a loop is not used for the next one
+    from ..rules import tok as _tok4
+    _tok4.tok_4(ctx, rep, order=True)      # "the same whether the tree came from a fresh parse or an incremental re-parse": the diff parser reads the indentation stack when a token arrives
     rep.note('Not decided: positions inside the file, non-negative columns, equality of issue lists across fresh / '
              'incremental / cached trees.')
